@@ -1055,6 +1055,7 @@ var generators = []struct {
 	{"curl", []string{"Curl", "CurlAsm"}, genCurl},
 	{"pow", []string{"Pow"}, genPow},
 	{"address", []string{"Address"}, genAddress},
+	{"migration", []string{"Migration"}, genMigration},
 	{"slip10", []string{"Slip10", "Secp256k1"}, genSlip10},
 	{"ed", []string{"Ed"}, genEd},
 	{"deps", []string{"Deps"}, genDeps},
